@@ -35,7 +35,8 @@ def main():
                 print("replay %s: no violation on the current tree" % a.replay)
             rc = 1 if n else 0
         elif a.selftest:
-            mod.selftest(ctx)
+            from . import selftest
+            selftest.run(ctx)
             print("selftest %s: ok" % pid)
             rc = 0
         else:
